@@ -242,3 +242,12 @@ def gen_storage(items):
                     raise Fail(f'{rel}: new_segment_meta({arg}, ..): unclassified constructor call')
         return DL('NEW_SEGMENT_META_CALLS', sorted(codes), 'classification of every non-test new_segment_meta call: 1 = fresh random segment id (MetaSource.fresh), 2 = id of a live Segment made by new_segment() in the same function (MetaSource.derived)')
     items.append(new_meta_calls)
+
+    def managed_atomic_write():
+        f = 'src/directory/managed_directory.rs'
+        codes = ordered_codes(f, 'atomic_write', [
+            (1, r'self\.register_file_as_managed\(path\)'),
+            (2, r'self\.directory\.atomic_write\(path,\s*data\)'),
+        ], 'ManagedDirectory::atomic_write')
+        return DL('MANAGED_ATOMIC_WRITE_STEPS', codes, 'managed_directory.rs::atomic_write in source order: 1 register_file_as_managed, 2 atomic_write of the wrapped directory')
+    items.append(managed_atomic_write)
